@@ -1,9 +1,9 @@
 package props
 
 import (
-	"errors"
 	"bytes"
 	"context"
+	"errors"
 	"fmt"
 	"google.golang.org/grpc"
 	"google.golang.org/grpc/status"
@@ -968,9 +968,9 @@ func c19HTTPGenerations(gens int, samePeer bool, bound int) *explore.Scenario {
 			vsched.Settle()
 			vsched.Explore(true)
 			for g := 0; g < gens; g++ {
-				src := "peer"
+				src := "Peer-A.Example:8080" // (addresses are opaque strings: letter case, punctuation)
 				if !samePeer {
-					src = fmt.Sprintf("peer%d", g)
+					src = []string{"peer0", "Peer1", "PEER:2", "peer 3", "p/e/e/r", "\u043f\u0438\u0440"}[g%6]
 				}
 				b, _ := proto.Marshal(&env.Rpc{Id: uint64(10 + g), Header: &goatorepo.RequestHeader{Method: "/a/B", Source: src, Destination: "d"}})
 				code := 0
